@@ -228,6 +228,35 @@ pub extern "C" fn rs_iter_digest(it: CIterator<u64>) -> u64 {
     it.fold(0u64, |a, x| a.wrapping_mul(31).wrapping_add(x + 1))
 }
 
+/// an iterator over values that own something (boxes): the `out` slot of the C caller is output-only,
+/// whatever bits it holds when `next` is called are not a value and must not be released
+pub struct BoxIter {
+    left: u64,
+}
+impl Iterator for BoxIter {
+    type Item = CBox<'static, Tracked>;
+    fn next(&mut self) -> Option<Self::Item> {
+        if self.left > 0 {
+            self.left -= 1;
+            Some(CBox::from(Tracked::new()))
+        } else {
+            None
+        }
+    }
+}
+#[no_mangle]
+pub extern "C" fn rs_boxiter_new(n: u64) -> *mut BoxIter {
+    Box::into_raw(Box::new(BoxIter { left: n }))
+}
+#[no_mangle]
+pub unsafe extern "C" fn rs_boxiter_wrap(c: *mut BoxIter) -> CIterator<'static, CBox<'static, Tracked>> {
+    CIterator::new(&mut *c)
+}
+#[no_mangle]
+pub unsafe extern "C" fn rs_boxiter_free(c: *mut BoxIter) -> u64 {
+    Box::from_raw(c).left
+}
+
 // ---- option / result ------------------------------------------------------------------------
 #[no_mangle]
 pub extern "C" fn rs_opt_u64(some: bool, v: u64) -> COption<u64> {
